@@ -93,3 +93,59 @@ func kvOldHeadReadOnly(r *core.Run) {
 		"with a non-empty store every path through makeTable first switches the current head to ReadOnlyState",
 		"makeTable can install a new head (e.g. by reusing a recycled table) without switching the previous head to ReadOnlyState: the old head stays writable, compaction skips it forever, and every such roll-over leaks one table of garbage")
 }
+
+// kvPutGrowsStore: both insert paths of the engine — Put (primary copies) and PutRaw
+// (backup copies, read repair, migration, compaction) — open a new table and try again
+// when the head table is full. If PutRaw gave up instead, a backup fragment would stop
+// accepting entries once its first table is full; with WriteQuorum below ReplicaCount the
+// Puts are still acknowledged, with the primary as their only copy.
+func kvPutGrowsStore(r *core.Run) {
+	const rule = "insert-grows-store"
+	isFull := func(cd core.Cond) bool {
+		call, ok := cd.Val.(*ssa.Call)
+		return ok && cd.Truth && callTo("errors.Is")(call) && len(call.Call.Args) == 2 && core.IsGlobalLoad(call.Call.Args[1], tablePkg, "ErrNotEnoughSpace")
+	}
+	cnt := 0
+	for _, name := range []string{kvPkg + ".(*KVStore).Put", kvPkg + ".(*KVStore).PutRaw"} {
+		fn := r.Need(rule, name)
+		if fn == nil {
+			continue
+		}
+		f := fn.SSA
+		inserts := core.CallsTo(f, false, core.Named(tablePkg+".(*Table).Put", tablePkg+".(*Table).PutRaw"))
+		// closure-wrapped inserts (see kvSingleLiveVersion)
+		core.Instrs(f, func(in ssa.Instruction) {
+			c, ok := in.(ssa.CallInstruction)
+			if !ok || in.Parent() != f {
+				return
+			}
+			callee := c.Common().StaticCallee()
+			if callee != nil && callee.Parent() == f && len(core.CallsTo(callee, false, core.Named(tablePkg+".(*Table).Put", tablePkg+".(*Table).PutRaw"))) > 0 {
+				inserts = append(inserts, c)
+			}
+		})
+		ok := false
+		for _, mk := range findInstrs(f, false, callTo(kvPkg+".(*KVStore).makeTable")) {
+			full := false
+			for _, cd := range core.Conditions(mk.Block()) {
+				if isFull(cd) {
+					full = true
+				}
+			}
+			if !full {
+				continue
+			}
+			// after the new table was made the insert is attempted again
+			for _, ins := range inserts {
+				if reachesBlock(mk.Block(), ins.Block()) {
+					ok = true
+				}
+			}
+		}
+		cnt++
+		r.Check(ok, rule, name, site(r, f.Pos()),
+			"a full head table leads to makeTable and another attempt",
+			"when the head table is full the insert does not open a new table and try again: the fragment stops accepting entries once its first table is full — for PutRaw that is every backup copy, while the primary keeps acknowledging the writes")
+	}
+	r.Floor(rule, cnt, 2)
+}
